@@ -12,7 +12,7 @@
    written in place". *)
 From Coq Require Import List Bool Arith String.
 Import ListNotations.
-From SG Require Import IR.Dtype Gen.GenDtype Proofs.DtypeProofs.
+From SG Require Import Base.Cmp IR.Dtype Gen.GenDtype Proofs.DtypeProofs.
 
 (* ---- NumPy promotion (NEP 50) on {bool, int64, float16, float32, float64} ------------------------------------ *)
 Theorem promote_comm : forall a b, join a b = join b a.
@@ -73,8 +73,8 @@ Print Assumptions mixed_dtype_promotes.
 (* no hidden default-dtype temporaries: op wrappers and parameter-free layers / losses (Flatten, Dropout, pools,
    Unfold/Fold, activations, every loss and reduction) do not route a floating operand through a tensor of the default
    type (float32): probed with float16 operands, which come back float16.  (Before fix c689c99 the Dropout mask was
-   `synapgrad.tensor(mask)` = float32: a float64 input was scaled by 1/(1-p) rounded to float32.)  Operator overloads
-   with a Python scalar are deliberately outside: Tensor(2.0) IS a float32 array - see notes/C10.md. *)
+   `synapgrad.tensor(mask)` = float32: a float64 input was scaled by 1/(1-p) rounded to float32.)  The operator
+   overloads with a Python-scalar operand have their own statement below (scalar_operands_take_tensor_dtype). *)
 Theorem no_hidden_default_dtype_temporaries :
   forall r, In r (wrapper_rows ++ param_free_layer_rows) -> all_dtype F16 (op_result gen_cfg F16 F16 r) = true.
 Proof. intros r Hr. exact (forallb_In _ _ probe_ok_all r Hr). Qed.
@@ -85,6 +85,35 @@ Example dropout_probe :
   deval0 gen_cfg [Np F16 KArray; PyBool (Some true); PyFloat] l_Dropout = [Np F16 KArray] /\
   existsb (fun r => str_eqb (op_name r) "Dropout#0") param_free_layer_rows = true.
 Proof. vm_compute. split; reflexivity. Qed.
+
+(* Python-scalar operands (since fix 31131bc: Tensor._wrap_scalar, translated from its AST): a Python int / float / bool
+   operand of + - * / ** and their reflected forms, and of unary minus (self * -1.0), is wrapped as an array of the
+   TENSOR's floating dtype, hence never changes a floating tensor's dtype - for every floating dtype, float16
+   included (x64 * 0.1 multiplies by 0.1 in float64, not by float32(0.1)).  Finite domain: the overload rows present
+   in the source with a Python-scalar second operand (@ excepted: a scalar is not a valid matmul operand). *)
+Theorem scalar_operands_take_tensor_dtype :
+  (forall d w, In d [F16; F32; F64] -> In w py_scalars ->
+     list_eqb_abs (deval0 gen_cfg [Np d KArray; w] scalar_wrap) [Np d KArray] = true) /\
+  (forall r, In r scalar_operand_rows -> forall d, In d [F16; F32; F64] ->
+     all_dtype d (op_result gen_cfg d d r) = true).
+Proof.
+  split.
+  - intros d w Hd Hw. pose proof (forallb_In _ _ wrap_ok_all d Hd) as H. exact (forallb_In _ _ H w Hw).
+  - intros r Hr d Hd. pose proof (forallb_In _ _ scalar_row_ok_all r Hr) as H. unfold scalar_row_ok in H.
+    exact (forallb_In _ _ H d Hd).
+Qed.
+Goal True. idtac "ASSUMPTIONS scalar_operands_take_tensor_dtype". Abort.
+Print Assumptions scalar_operands_take_tensor_dtype.
+
+(* what is still wrapped with the default float32 for floating tensors: non-scalar Python data (lists) and the operand
+   of @ / reflected @ (`Tensor(tensor)`; the call raises anyway: matmul needs two dimensions).  Operands of
+   NON-floating tensors are float32-wrapped too (int64 tensor * 2 is float64): outside this property, see the notes. *)
+Example still_wrapped_in_float32 :
+  deval0 gen_cfg [Np F64 KArray; ShapeV] scalar_wrap = [Np F32 KArray] /\
+  deval0 gen_cfg [Np F16 KArray; PyFloat] m___matmul__ = [Np F32 KArray] /\
+  Nat.leb 30 (List.length scalar_operand_rows) = true /\
+  forallb (fun r => forallb (fun d => negb (is_nil (op_result gen_cfg d d r))) [F16; F32; F64]) scalar_operand_rows = true.
+Proof. vm_compute. repeat split; reflexivity. Qed.
 
 Example mixed_add_f32_f64 :
   map (fun r => op_result gen_cfg F32 F64 r) (filter (fun r => str_eqb (op_name r) "functional.add#0") op_rows) = [[Np F64 KArray]].
@@ -205,20 +234,22 @@ Example tables_nonempty :
   /\ Nat.leb 300 (List.length op_rows) = true /\ Nat.leb 300 (List.length layer_rows) = true /\ Nat.leb 80 (List.length kernel_table) = true.
 Proof. vm_compute. repeat split; reflexivity. Qed.
 
-(* every row returns something for both dtypes (no statement above is true because a call always raises) *)
+(* every row returns something for both dtypes (no statement above is true because a call always raises), except the two
+   rows `x ** tensor` / `tensor ** x` with a Tensor exponent, which functional.pow / rpow reject (ValueError) *)
 Example rows_return :
-  forallb (fun r => forallb (fun d => negb (is_nil (op_result gen_cfg d d r))) [F32; F64]) (op_rows ++ layer_rows) = true.
+  forallb (fun d => list_eqb Dtype.str_eqb
+                      (map op_name (filter (fun r => is_nil (op_result gen_cfg d d r)) (op_rows ++ layer_rows)))
+                      ["Tensor.__pow__#0"; "Tensor.__rpow__#0"]%string) [F32; F64] = true.
 Proof. vm_compute. reflexivity. Qed.
 
 Example sum_forward_value :
   deval0 gen_cfg [Np F32 KArray; NoneV; PyBool (Some false)] k_cpu_ops_sum_forward = [Np F32 KScalar] /\
   deval0 gen_cfg [Np F32 KArray; PyInt; PyBool (Some false)] k_cpu_ops_sum_forward = [Np F32 KEither] /\
   deval0 gen_cfg [Np F32 KArray; Np F64 KArray] k_cpu_ops_add_forward = [Np F64 KEither] /\
-  (* x32 + 2.0 : the Python scalar is wrapped by Tensor(2.0) = a float32 0-d ARRAY (strong) *)
+  (* x + 2.0 : the Python scalar is wrapped as a 0-d ARRAY (strong) of the tensor's floating dtype *)
   deval0 gen_cfg [Np F32 KArray; PyFloat] m___add__ = [Np F32 KArray] /\
   deval0 gen_cfg [Np F64 KArray; PyFloat] m___add__ = [Np F64 KArray] /\
-  (* float16 is outside the property: x16 + 2.0 is float32 *)
-  deval0 gen_cfg [Np F16 KArray; PyFloat] m___add__ = [Np F32 KArray] /\
+  deval0 gen_cfg [Np F16 KArray; PyFloat] m___add__ = [Np F16 KArray] /\
   (* x ** 2 : the exponent reaches the kernel as a weak Python number *)
   deval0 gen_cfg [Np F16 KArray; PyInt] m___pow__ = [Np F16 KArray].
 Proof. vm_compute. repeat split; reflexivity. Qed.
